@@ -316,6 +316,15 @@ func genInbound(r *simrt.RNG, sc *Scenario, faulty bool, frameGen func(r *simrt.
 	}
 }
 
+// genGoStall: in some runs goroutines of the code under test are descheduled for a while at
+// their synchronisation points.
+func genGoStall(r *simrt.RNG, sc *Scenario, p float64) {
+	if !r.Chance(p) {
+		return
+	}
+	sc.GoStall = &GoStall{PerMille: []int{0, 2, 10}[r.Intn(3)], ArrivalPerMille: []int{100, 300, 600}[r.Intn(3)], MaxUS: []int{1000, 100000, 2000000}[r.Intn(3)]}
+}
+
 func horizonOf(sc *Scenario) int {
 	h := 200 + 14*len(sc.Frames)
 	for _, p := range sc.Producers {
@@ -327,6 +336,11 @@ func horizonOf(sc *Scenario) int {
 func genC10(seed uint64) *Scenario {
 	r := simrt.NewRNG(seed)
 	sc := &Scenario{Property: "C10", RunSeed: seed}
+	if r.Chance(1.0 / 800) {
+		genInboundMarathon(r, sc)
+		sc.Strategy = genStrategy(r, 800000)
+		return sc
+	}
 	faulty := !r.Chance(0.25)
 	sc.Class = "fault-free"
 	if faulty {
@@ -343,6 +357,7 @@ func genC10(seed uint64) *Scenario {
 	if r.Chance(0.15) {
 		genProducers(r, sc, 3, 20)
 	}
+	genGoStall(r, sc, 0.12)
 	sc.Strategy = genStrategy(r, horizonOf(sc))
 	return sc
 }
@@ -383,6 +398,16 @@ func genProducers(r *simrt.RNG, sc *Scenario, maxProd, maxMsgs int) {
 			n = r.Intn(maxMsgs/5 + 2)
 		}
 		pr.ThinkMax = []int{0, 0, 1, 4, 20}[r.Intn(5)]
+		if n > 0 && r.Chance(0.15) {
+			k := 1 + r.Intn(2)
+			for j := 0; j < k; j++ {
+				ms := 0
+				if r.Chance(0.5) {
+					ms = []int{1, 50, 1000, 5000, 10000, 30000, 60000}[r.Intn(7)]
+				}
+				pr.Pauses = append(pr.Pauses, [2]int{r.Intn(n), ms})
+			}
+		}
 		for i := 0; i < n; i++ {
 			kind := outKinds[r.Intn(len(outKinds))]
 			if r.Chance(0.1) {
@@ -442,11 +467,56 @@ func genMarathon(r *simrt.RNG, sc *Scenario) {
 	}
 }
 
+// genInboundBacklog adds well-formed inbound frames, delivered in large reads, and a consumer
+// that stops or stalls: more frames than the stream has receive buffers stay unconsumed.
+func genInboundBacklog(r *simrt.RNG, sc *Scenario) {
+	n := r.Range(40, 160)
+	big := 2 // no very large frames here
+	for i := 0; i < n; i++ {
+		f := genSimpleFrame(r, uint32(0x100+i), &big)
+		if f.Size > 256 {
+			f = Frame{Kind: "echo_req", Size: 8 + r.Intn(60), Xid: uint32(0x100 + i), Seed: r.Uint64()}
+		}
+		if _, err := f.Build(); err != nil {
+			panic("harness: " + err.Error())
+		}
+		sc.Frames = append(sc.Frames, f)
+	}
+	sc.Chunks = nil
+	switch r.Intn(3) {
+	case 0:
+		sc.Consumer.StopAfter = 1 + r.Intn(5)
+	case 1:
+		sc.Consumer.Stalls = append(sc.Consumer.Stalls, [2]int{r.Intn(4), r.Range(2000, 6000)})
+	case 2:
+		sc.Consumer.Sleeps = append(sc.Consumer.Sleeps, [2]int{r.Intn(4), []int{500, 9000, 30000}[r.Intn(3)]})
+	}
+}
+
+// genInboundMarathon: a long inbound history - more frames than a 14-, 15- or 16-bit counter can
+// count - of minimal frames in large reads, consumed promptly.
+func genInboundMarathon(r *simrt.RNG, sc *Scenario) {
+	sc.Class = "marathon"
+	n := []int{17000, 33500, 66500}[r.Pick(50, 30, 20)] + r.Intn(800)
+	for i := 0; i < n; i++ {
+		kind := []string{"echo_req", "echo_rep", "barrier_req", "barrier_rep"}[r.Intn(4)]
+		sc.Frames = append(sc.Frames, Frame{Kind: kind, Size: 8, Xid: uint32(0x100 + i), Seed: uint64(i)})
+	}
+	for i := range sc.Frames {
+		if _, err := sc.Frames[i].Build(); err != nil {
+			panic("harness: " + err.Error())
+		}
+	}
+}
+
 func genC11(seed uint64) *Scenario {
 	r := simrt.NewRNG(seed)
 	sc := &Scenario{Property: "C11", RunSeed: seed, Class: "fault-free"}
 	if r.Chance(1.0 / 800) {
 		genMarathon(r, sc)
+		if r.Chance(0.6) {
+			sc.GoStall = &GoStall{ArrivalPerMille: []int{300, 600}[r.Intn(2)], MaxUS: []int{1000, 100000, 2000000}[r.Intn(3)]}
+		}
 		sc.Strategy = genStrategy(r, 800000)
 		return sc
 	}
@@ -454,6 +524,7 @@ func genC11(seed uint64) *Scenario {
 	if len(sc.WriteStalls) > 0 {
 		sc.Class = "faulty"
 	}
+
 	// a slow peer that lets one write run into the 10 s deadline, with or without part of the
 	// data accepted: the library ends the process by design (log.Fatalf); what reached the
 	// wire until then must still be whole frames in order, except for the cut-off tail
@@ -474,7 +545,11 @@ func genC11(seed uint64) *Scenario {
 		}
 	}
 	// some inbound traffic in a third of the runs (full duplex), never a failure: C11 has no fault sequences
-	if r.Chance(0.3) {
+	// ... and in some of those the application consumes slowly or stops consuming (every receive
+	// buffer ends up held): that must not keep a submitted message from being written
+	if r.Chance(0.08) {
+		genInboundBacklog(r, sc)
+	} else if r.Chance(0.3) {
 		genInbound(r, sc, false, genSimpleFrame)
 		if len(sc.Frames) > 60 {
 			sc.Frames = sc.Frames[:60]
@@ -496,6 +571,7 @@ func genC11(seed uint64) *Scenario {
 		sc.ShutdownAfter = 1 + r.Intn(10+6*tot)
 		sc.Class = "faulty"
 	}
+	genGoStall(r, sc, 0.12)
 	sc.Strategy = genStrategy(r, horizonOf(sc))
 	return sc
 }
